@@ -23,8 +23,42 @@ def _corpus_files():
     return out
 
 
+def api_fault_sessions(chk):
+    """the link drops while YncaApi.initialize() is still waiting for replies (the sender busy with queued queries): the
+    application's disconnect callback is invoked exactly once -- long before initialize() gives up and closes"""
+    import random
+
+    from .. import apiscen as AS
+    from ..subharness import class_info
+    from . import c14
+
+    infos, _ = class_info()
+    devs = AS.recorded_devices()
+    rng = random.Random(chk.seed + 1515)
+    base = {"device": "mainonly0", "dev_seed": 977, "latency_us": 20000, "seed": 1, "switch_prob": 0.05, "fault": {"kind": "none"}}
+    s0, _rx = c14.run_case(dict(base), infos, devs)
+    if s0.exc is not None or s0.sim.failure is not None:
+        return
+    n_bytes = s0.dev.n_bytes
+    for k in range(14 if chk.tier == "quick" else 150):
+        case = dict(base, fault={"kind": rng.choice(["eof_after_bytes", "err_after_bytes"]), "k": rng.randrange(1, max(2, n_bytes))}, seed=rng.randrange(1 << 30), switch_prob=rng.choice([0.05, 0.3, 0.6]))
+        s, _ = c14.run_case(case, infos, devs)
+        chk.count_case({"api_fault": case}, True)
+        if s.sim.failure is not None or s.exc is None or not hasattr(s, "t_end"):
+            continue  # C14's matter
+        ev = s.sim.events
+        t_fault = next((e["t"] for e in ev if e["k"] == "DevFault"), None)
+        if t_fault is None or t_fault >= s.t_end:
+            continue
+        # the fault comes with the k-th byte of the dialogue, i.e. while replies are flowing and the timed wait of the
+        # phase has seconds to go: the application has not called close(), so the failure is an unexpected disconnect
+        if len(s.disconnects) != 1:
+            chk.violation("C15:api-disconnect-count", f"the link dropped while YncaApi.initialize() was waiting for replies ({(s.t_end - t_fault) / 1e6:.2f} s before it ended); the application never called close(), yet the disconnect callback was invoked {len(s.disconnects)} times (expected exactly once)", {"api_fault_case": case})
+
+
 def run(chk):
     CORPUS.extend(x for x in _corpus_files() if x not in CORPUS)
+    api_fault_sessions(chk)
     return run_life_check(
         chk, "C15", "Properties/C15.v", "fault", LS.mon_c15, 400, 8000,
         "C01 scenarios with a transport fault (EOF or I/O error on read, optionally failing writes) at a random virtual time or after the k-th write, biased to 'queue non-empty' and "
